@@ -187,6 +187,10 @@ pub fn history(o: &Opts) -> i32 {
     let mut out = Out::create(o.req("out"));
     let root = scratch.join("tree").join("site");
     make_site(&root);
+    // a file large enough that a download is still in progress when the client goes away
+    const HUGE: usize = 6 * 1024 * 1024;
+    std::fs::write(root.join("huge.bin"), vec![b'h'; HUGE]).unwrap();
+    let huge_req: &[u8] = b"GET /huge.bin HTTP/1.1\r\nHost: localhost\r\n\r\n";
     let t = Duration::from_millis(o.num("timeout-ms", 3000));
     for (hi, h) in read_ndjson(o.req("cases")).iter().enumerate() {
         let n = h["n"].as_u64().unwrap() as usize;
@@ -215,7 +219,7 @@ pub fn history(o: &Opts) -> i32 {
                 }
                 _ => {
                     // "close": early close, half-sent request, reset before / after sending
-                    let flavour = ["early_close", "half_sent", "reset_before", "reset_after"][(i + hi) % 4];
+                    let flavour = ["early_close", "half_sent", "reset_before", "reset_after", "abort_download"][(i + hi) % 5];
                     if let Ok(mut s) = TcpStream::connect_timeout(&addr, Duration::from_secs(2)) {
                         match flavour {
                             "half_sent" => {
@@ -225,6 +229,20 @@ pub fn history(o: &Opts) -> i32 {
                             "reset_before" => set_linger0(&s),
                             "reset_after" => {
                                 let _ = s.write_all(VALID);
+                                set_linger0(&s);
+                            }
+                            "abort_download" => {
+                                // ask for the large file, take the first 32 KiB, reset: the server's write fails mid-response
+                                let _ = s.write_all(huge_req);
+                                let _ = s.set_read_timeout(Some(Duration::from_secs(2)));
+                                let mut got = 0usize;
+                                let mut buf = [0u8; 8192];
+                                while got < 32 * 1024 {
+                                    match s.read(&mut buf) {
+                                        Ok(0) | Err(_) => break,
+                                        Ok(k) => got += k,
+                                    }
+                                }
                                 set_linger0(&s);
                             }
                             _ => {}
@@ -273,6 +291,25 @@ pub fn history(o: &Opts) -> i32 {
             }
         }
         out.emit(&json!({"ev":"Burst","sent":n,"answered":answered}));
+        // probe 3: the large file, alone and then N downloads together, each complete (capacity for LARGE responses survives, too)
+        let big_ok = |r: &Option<Vec<u8>>| -> bool { status_of(r) == 200 && r.as_ref().map(|b| b.len() > HUGE).unwrap_or(false) };
+        let tb = Duration::from_secs(20);
+        let r = exchange(addr, huge_req, tb);
+        out.emit(&json!({"ev":"Conn","kind":"valid","flavour":"get_huge","answered":r.is_some(),"status":if big_ok(&r) { 200 } else { 0 }}));
+        let barrier = std::sync::Arc::new(std::sync::Barrier::new(n));
+        let handles: Vec<_> = (0..n)
+            .map(|_| {
+                let b = barrier.clone();
+                let req = huge_req.to_vec();
+                std::thread::spawn(move || {
+                    b.wait();
+                    let r = exchange(addr, &req, Duration::from_secs(30));
+                    status_of(&r) == 200 && r.map(|x| x.len() > 6 * 1024 * 1024).unwrap_or(false)
+                })
+            })
+            .collect();
+        let answered = handles.into_iter().filter_map(|h| h.join().ok()).filter(|ok| *ok).count();
+        out.emit(&json!({"ev":"Burst","sent":n,"answered":answered}));
         out.emit(&json!({"ev":"Exit","alive":srv.alive()}));
         srv.stop();
     }
@@ -313,6 +350,12 @@ fn conc_requests() -> Vec<(String, Vec<u8>)> {
         ("garbage".into(), vec![0xff, 0xfe, 0x0a, 0x0a]),
         ("bad_length".into(), b"GET / HTTP/1.1\r\nContent-Length: a\r\n\r\n".to_vec()),
         ("put".into(), b"PUT /a.txt HTTP/1.1\r\nHost: localhost\r\nContent-Length: 5\r\n\r\nhello".to_vec()),
+        // members of the mass directory (conc_site): asked again after thousands of other files have been served
+        ("mass_txt".into(), g("/m/f00000.txt")),
+        ("mass_css".into(), g("/m/f00001.css")),
+        ("mass_js".into(), g("/m/f00002.js")),
+        ("mass_html".into(), g("/m/f00003.html")),
+        ("mass_late".into(), g("/m/f01039.json")),
     ]
 }
 
@@ -350,7 +393,17 @@ fn conc_site(root: &Path) {
     let pat = |key: u64, len: u64| -> Vec<u8> { (0..len).map(|i| ((key + 131 * i + i / 251) % 256) as u8).collect() };
     std::fs::write(root.join("big.bin"), pat(11, 300_000)).unwrap();
     std::fs::write(root.join("big2.bin"), pat(13, 120_000)).unwrap();
+    // a directory with thousands of small files of rotating types: whatever the server keeps per file name (a cache, a memo,
+    // a table) reaches its capacity and starts recycling entries
+    let m = root.join("m");
+    std::fs::create_dir_all(&m).unwrap();
+    for i in 0..MASS {
+        let ext = MASS_EXT[i % MASS_EXT.len()];
+        std::fs::write(m.join(format!("f{:05}.{}", i, ext)), format!("file {} of type {}\n", i, ext)).unwrap();
+    }
 }
+const MASS: usize = 2600;
+const MASS_EXT: [&str; 10] = ["txt", "css", "js", "html", "svg", "png", "xml", "pdf", "md", "json"];
 
 /// C08 on the wire
 pub fn conc(o: &Opts) -> i32 {
@@ -419,6 +472,28 @@ pub fn conc(o: &Opts) -> i32 {
                 let (ri, r) = h.join().unwrap();
                 out.emit(&json!({"ev":"Conc","req":ri + 1,"name":reqs[ri].0,"workers":n,"round":round,"r":conc_projection(&r)}));
             }
+        }
+        srv.stop();
+    }
+    // history dependence without any overlap: one server, every file of the mass directory once, then the reference requests again
+    {
+        let port = free_port();
+        let addr: SocketAddr = format!("127.0.0.1:{}", port).parse().unwrap();
+        let srv = match Srv::start(&bin, &root, &[], &[format!("--port={}", port), "--thread-count=2".to_string()], &[addr], None, "hist") {
+            Ok(s) => s,
+            Err(e) => {
+                eprintln!("start failed: {}", e);
+                return 2;
+            }
+        };
+        out.emit(&json!({"ev":"Phase","phase":"concurrent","workers":2}));
+        for i in 0..MASS {
+            let bytes = format!("GET /m/f{:05}.{} HTTP/1.1\r\nHost: localhost\r\n\r\n", i, MASS_EXT[i % MASS_EXT.len()]).into_bytes();
+            let _ = exchange(addr, &bytes, t);
+        }
+        for (ri, (name, bytes)) in reqs.iter().enumerate() {
+            let r = exchange(addr, bytes, t);
+            out.emit(&json!({"ev":"Conc","req":ri + 1,"name":name,"workers":2,"round":1000,"r":conc_projection(&r)}));
         }
         srv.stop();
     }
@@ -570,6 +645,39 @@ pub fn fs(o: &Opts) -> i32 {
             let r = exchange(addr, &bytes, t);
             sent += 1;
             out.emit(&json!({"ev":"Request","i":sent,"seed":format!("{} {}", m, target),"muts":[],"status":status_of(&r)}));
+        }
+    }
+    // the upload API used the way a client uses it: announce (name, size, lastModified), then send a multipart part whose
+    // filename and length match the announcement -- for a new name, an existing name, a nested name, and with mismatches
+    for (name, content, announce_size) in [
+        ("upload.bin", "uploaded bytes", 14usize), ("notes.txt", "x", 1), ("a.txt", "replaced!", 9), ("docs/new.html", "<p>new</p>", 10),
+        ("report.pdf", "0123456789abcdef", 16), ("mismatch.bin", "short", 99), ("empty.bin", "", 0),
+    ] {
+        let init = format!("POST /file-upload/initiate?name={}&lastModified=1700000000000&size={} HTTP/1.1\r\nHost: localhost\r\n\r\n", name, announce_size);
+        let r = exchange(addr, init.as_bytes(), t);
+        sent += 1;
+        out.emit(&json!({"ev":"Request","i":sent,"seed":format!("initiate {}", name),"muts":[],"status":status_of(&r)}));
+        for _ in 0..2 {
+            let body = format!("--b1\r\nContent-Disposition: form-data; name=\"file\"; filename=\"{}\"\r\nContent-Type: application/octet-stream\r\n\r\n{}\r\n--b1--\r\n", name, content);
+            let up = format!("POST /form-multipart-enctype-post-method HTTP/1.1\r\nHost: localhost\r\nContent-Type: multipart/form-data; boundary=b1\r\nContent-Length: {}\r\n\r\n{}", body.len(), body);
+            let r = exchange(addr, up.as_bytes(), t);
+            sent += 1;
+            out.emit(&json!({"ev":"Request","i":sent,"seed":format!("upload {}", name),"muts":[],"status":status_of(&r)}));
+        }
+        let get = format!("GET /{} HTTP/1.1\r\nHost: localhost\r\n\r\n", name);
+        let r = exchange(addr, get.as_bytes(), t);
+        sent += 1;
+        out.emit(&json!({"ev":"Request","i":sent,"seed":format!("get {}", name),"muts":[],"status":status_of(&r)}));
+    }
+    // thresholds: the same few requests many times (a write that happens on the n-th hit, a log that rotates, a cache that spills)
+    let many = o.num("repeat", 1200);
+    for k in 0..many {
+        let target = ["/a.txt", "/nx", "/", "/docs/", "/a.txt?v=2"][(k % 5) as usize];
+        let bytes = format!("GET {} HTTP/1.1\r\nHost: localhost\r\n\r\n", target).into_bytes();
+        let r = exchange(addr, &bytes, t);
+        sent += 1;
+        if k % 400 == 0 {
+            out.emit(&json!({"ev":"Request","i":sent,"seed":format!("repeat GET {}", target),"muts":[],"status":status_of(&r)}));
         }
     }
     let alive = srv.alive();
